@@ -8,23 +8,34 @@ From FT Require Import Model.Base Model.Obs Model.Store Model.StoreCheck.
 Import ListNotations.
 Open Scope Z_scope.
 
-Record ctor_case := { cc_n : nat; cc_tree : tree }.
+Record ctor_case := { cc_n : nat; cc_tree : tree;          (* the result *)
+                      cc_sn : nat; cc_stree : tree }.      (* the source tensor afterwards *)
 
-Definition ctor_model (c : ctor_case) : V :=
-  match V_state (init (cc_n c) 0 (cc_tree c)) with
-  | VL l => VL (Vn (cc_n c) :: l)
-  | v => v
+Definition one_state (n : nat) (t : tree) : list V :=
+  match V_state (init n 0 t) with
+  | VL l => Vn n :: l
+  | v => [v]
   end.
 
-(* observation = [number of ranks; tree; rank lists as sorted paths; owners ok] *)
-Definition ctor_holds (c : ctor_case) (o : V) : bool :=
+Definition ctor_model (c : ctor_case) : V :=
+  VL [VL (one_state (cc_n c) (cc_tree c)); VL (one_state (cc_sn c) (cc_stree c))].
+
+(* observation = [result; source afterwards], each
+   [number of ranks; tree; rank lists as sorted paths; owners ok] *)
+Definition one_holds (n : nat) (o : V) : bool :=
   match o with
-  | VL (VZ n :: l) =>
-    (n =? Z.of_nat (cc_n c)) && Nat.ltb O (cc_n c) &&
+  | VL (VZ k :: l) =>
+    (k =? Z.of_nat n) && Nat.ltb O n &&
     match V_to_state (VL l) with
-    | Some s => mirror_state (cc_n c) s && wf_tree (cc_n c) (o_tree s)
+    | Some s => mirror_state n s && wf_tree n (o_tree s)
     | None => false
     end
+  | _ => false
+  end.
+
+Definition ctor_holds (c : ctor_case) (o : V) : bool :=
+  match o with
+  | VL [r; s] => one_holds (cc_n c) r && one_holds (cc_sn c) s
   | _ => false
   end.
 
